@@ -805,6 +805,7 @@ func (it *strIter) next(in *Interp) Tuple {
 func (in *Interp) rangeIter(x Value, t types.Type) iterator {
 	switch x := x.(type) {
 	case *Map:
+		in.onMapRead(x)
 		return &mapIter{es: x.live()}
 	case Str:
 		return &strIter{bs: x.bytes()}
@@ -1097,6 +1098,7 @@ func (in *Interp) callBuiltin(caller *frame, pos token.Pos, fn *ssa.Builtin, arg
 		case []Value:
 			return goInt(len(x))
 		case *Map:
+			in.onMapRead(x)
 			return goInt(x.Len())
 		case lazyRunes:
 			return symInt(types.Int, runeCountTerm(x.s.bytes()))
